@@ -8,6 +8,8 @@ import (
 	"reflect"
 	"regexp"
 	"runtime"
+	"sort"
+	"strconv"
 	"strings"
 	"unsafe"
 
@@ -68,11 +70,66 @@ func (t *Target) build(name string, ref proto.Message) (interface{}, error) {
 	return m, err
 }
 
+// nilOneMapValue replaces the value of one entry of a message-valued map of the Go message by a nil
+// pointer — the generated code treats such an entry as absent — and removes the entry from the reference
+// value, so that both still denote the same message.
+func nilOneMapValue(m interface{}, ref *dynamicpb.Message) bool {
+	v := reflect.ValueOf(m)
+	if v.Kind() != reflect.Ptr || v.IsNil() || v.Elem().Kind() != reflect.Struct {
+		return false
+	}
+	v = v.Elem()
+	for i := 0; i < v.NumField(); i++ {
+		f := v.Field(i)
+		if f.Kind() != reflect.Map || f.Len() == 0 || f.Type().Elem().Kind() != reflect.Ptr || !f.CanSet() {
+			continue
+		}
+		parts := strings.Split(v.Type().Field(i).Tag.Get("protobuf"), ",")
+		if len(parts) < 2 {
+			continue
+		}
+		num, err := strconv.Atoi(parts[1])
+		if err != nil {
+			continue
+		}
+		fd := ref.Descriptor().Fields().ByNumber(protoreflect.FieldNumber(num))
+		if fd == nil || !fd.IsMap() || fd.MapValue().Message() == nil {
+			continue
+		}
+		keys := f.MapKeys()
+		sort.Slice(keys, func(a, b int) bool { return fmt.Sprint(keys[a].Interface()) < fmt.Sprint(keys[b].Interface()) })
+		k := keys[0]
+		var mk protoreflect.MapKey
+		switch k.Kind() {
+		case reflect.String:
+			mk = protoreflect.ValueOfString(k.String()).MapKey()
+		case reflect.Bool:
+			mk = protoreflect.ValueOfBool(k.Bool()).MapKey()
+		case reflect.Int32:
+			mk = protoreflect.ValueOfInt32(int32(k.Int())).MapKey()
+		case reflect.Int64:
+			mk = protoreflect.ValueOfInt64(k.Int()).MapKey()
+		case reflect.Uint32:
+			mk = protoreflect.ValueOfUint32(uint32(k.Uint())).MapKey()
+		case reflect.Uint64:
+			mk = protoreflect.ValueOfUint64(k.Uint()).MapKey()
+		default:
+			continue
+		}
+		if !ref.Get(fd).Map().Has(mk) {
+			continue
+		}
+		ref.Mutable(fd).Map().Clear(mk)
+		f.SetMapIndex(k, reflect.Zero(f.Type().Elem()))
+		return true
+	}
+	return false
+}
+
 // ---------- C04 / C05 / C17(marshal side) ----------
 
 func (rn *runner) marshalCase(t *Target, name string, ref *dynamicpb.Message, label string) {
 	md := t.desc(name)
-	initialized := proto.CheckInitialized(ref) == nil
 	m, err := t.build(name, ref)
 	if err != nil {
 		Note("populate failed for " + t.where(name) + ": " + err.Error())
@@ -81,6 +138,10 @@ func (rn *runner) marshalCase(t *Target, name string, ref *dynamicpb.Message, la
 	if rn.r.Chance(1, 3) {
 		tweak(rn.r, reflect.ValueOf(m), 0)
 	}
+	if rn.r.Chance(1, 5) && nilOneMapValue(m, ref) {
+		label += " (one message-valued map entry set to nil)"
+	}
+	initialized := proto.CheckInitialized(ref) == nil
 	desc := map[string]interface{}{"type": t.where(name), "case": label, "value": trunc(fmt.Sprint(ref), 300), "reference_bytes": trunc(hx(refBytes(ref)), 300)}
 	Journal(fmt.Sprintf("%s marshal %s %s %s", rn.prop, t.where(name), label, hx(refBytes(ref))))
 	fm := m.(FM)
@@ -881,6 +942,9 @@ func (rn *runner) unknownRoundTrip(t *Target, name string, m interface{}, want *
 	}
 	back, derr := t.toDyn(name, b)
 	if derr != nil {
+		if len(want.GetUnknown()) > 0 {
+			Violation("C07", "unknown", "unknown-fields-lost-on-marshal/output-not-parseable", "the bytes Marshal() returns after Unmarshal() of an input with unknown fields cannot be parsed: the unknown fields are not re-emitted", desc, hx(want.GetUnknown()), trunc(hx(b), 300)+" ("+derr.Error()+")")
+		}
 		return
 	}
 	if !bytes.Equal(back.GetUnknown(), want.GetUnknown()) {
@@ -1045,9 +1109,54 @@ func (rn *runner) runUnmarshal(ts []*Target, n int) {
 					continue
 				}
 				rn.unmarshalCase(t, name, enc, applied, false)
+				if rn.prop == "C07" && i%3 == 0 {
+					// the same with the key of one unknown field written non-minimally (a padded varint): not
+					// what a conforming writer emits, so the input may be refused — but when it is accepted
+					// (the reference parsers do accept it) the field must be kept byte for byte like any other
+					if padded, ok := padUnknownKey(rn.r, md, enc); ok {
+						rn.unmarshalCase(t, name, padded, append(append([]string{}, applied...), "padded-unknown-key"), true)
+					}
+				}
 			}
 		}
 	}
+}
+
+// padUnknownKey re-encodes the key of one top-level field the schema does not define with one or two
+// redundant continuation bytes.
+func padUnknownKey(r *prng.Rng, md protoreflect.MessageDescriptor, b []byte) ([]byte, bool) {
+	type span struct{ start, keyLen int }
+	var cands []span
+	for off := 0; off < len(b); {
+		num, typ, n := protowire.ConsumeTag(b[off:])
+		if n < 0 {
+			return nil, false
+		}
+		m := protowire.ConsumeFieldValue(num, typ, b[off+n:])
+		if m < 0 {
+			return nil, false
+		}
+		if md.Fields().ByNumber(num) == nil && !md.ExtensionRanges().Has(num) {
+			cands = append(cands, span{off, n})
+		}
+		off += n + m
+	}
+	if len(cands) == 0 {
+		return nil, false
+	}
+	c := cands[r.Intn(len(cands))]
+	key := append([]byte{}, b[c.start:c.start+c.keyLen]...)
+	if len(key) > 3 {
+		return nil, false // keep the key within the five bytes every parser reads
+	}
+	key[len(key)-1] |= 0x80
+	for i := r.Intn(2); i > 0; i-- {
+		key = append(key, 0x80)
+	}
+	key = append(key, 0x00)
+	out := append([]byte{}, b[:c.start]...)
+	out = append(out, key...)
+	return append(out, b[c.start+c.keyLen:]...), true
 }
 
 // ---------- C09: histories ----------
@@ -1074,6 +1183,15 @@ func mutateStruct(r *prng.Rng, v reflect.Value) string {
 		f.SetString(f.String() + strings.Repeat("g", 1+r.Intn(200)))
 		return "grow-string " + nm
 	case reflect.Slice:
+		if r.Chance(1, 5) {
+			// emptied by re-slicing (buffer reuse): a non-nil slice of length zero
+			if f.Len() > 0 {
+				f.Set(f.Slice(0, 0))
+			} else {
+				f.Set(reflect.MakeSlice(f.Type(), 0, 2))
+			}
+			return "empty-non-nil " + nm
+		}
 		if f.Len() > 0 && r.Chance(1, 3) {
 			f.Set(f.Slice(0, f.Len()-1))
 			return "shrink " + nm
@@ -1164,6 +1282,7 @@ func (rn *runner) history(t *Target, name string, steps int) {
 	md := t.desc(name)
 	m, _ := t.build(name, randMessage(rn.r, md, genOpts{requiredAlways: true}))
 	var log []string
+	var scratch []byte
 	expected := func() ([]byte, bool) {
 		// marshal a fresh deep copy of the current contents
 		cp := t.deepCopy(name, m)
@@ -1175,8 +1294,32 @@ func (rn *runner) history(t *Target, name string, steps int) {
 	}
 	for i := 0; i < steps; i++ {
 		Journal(fmt.Sprintf("C09 history %s %s", t.where(name), strings.Join(log, " ; ")))
-		op := rn.r.Intn(10)
+		op := rn.r.Intn(11)
 		switch op {
+		case 10:
+			// MarshalTo into a buffer the caller keeps reusing: it still holds the previous output (or 0xA5)
+			log = append(log, "MarshalTo(reused buffer)")
+			want, ok := expected()
+			desc := map[string]interface{}{"type": t.where(name), "history": strings.Join(log, " ; ")}
+			var err error
+			var dest []byte
+			if p := safeCall(func() {
+				sz := m.(FM).Size()
+				for len(scratch) < sz {
+					scratch = append(scratch, 0xA5)
+				}
+				dest = scratch[:sz]
+				err = m.(FM).MarshalTo(dest)
+			}); p != "" {
+				Violation("C09", "histories", "stale-state/marshalto-panic", "Size()+MarshalTo() panicked after a history of mutations and Size/Marshal calls", desc, "no panic", p)
+				Count("histories", fmt.Sprint(desc), "panic", i, true)
+				return
+			}
+			if ok && err == nil && !sameModuloMaps(md, dest, want) {
+				Violation("C09", "histories", "stale-state/marshalto-differs-from-fresh-copy", "MarshalTo() into a reused buffer left bytes that differ from marshaling a fresh deep copy of the current contents", desc, hx(want), hx(dest))
+				Count("histories", fmt.Sprint(desc), "stale", i, true)
+				return
+			}
 		case 0, 1, 2:
 			log = append(log, "mutate("+mutateStruct(rn.r, reflect.ValueOf(m))+")")
 		case 3:
@@ -1237,6 +1380,15 @@ func (t *Target) deepCopy(name string, m interface{}) interface{} {
 	return cp
 }
 
+// implicitBytes: a singular proto3 `bytes` field without presence (no oneof / optional marker in its tag).
+func implicitBytes(sf reflect.StructField) bool {
+	if sf.Type.Kind() != reflect.Slice || sf.Type.Elem().Kind() != reflect.Uint8 {
+		return false
+	}
+	tag := "," + sf.Tag.Get("protobuf") + ","
+	return strings.Contains(tag, ",bytes,") && strings.Contains(tag, ",opt,") && strings.Contains(tag, ",proto3,") && !strings.Contains(tag, ",oneof,")
+}
+
 // rawDeepCopy copies src into dst (same type), including unexported fields, except the runtime's caches
 // and bookkeeping (state, sizeCache), which stay zero.
 func rawDeepCopy(dst, src reflect.Value) {
@@ -1268,6 +1420,9 @@ func rawDeepCopy(dst, src reflect.Value) {
 			switch src.Type().Field(i).Name {
 			case "state", "sizeCache", "XXX_sizecache", "XXX_NoUnkeyedLiteral":
 				continue
+			}
+			if implicitBytes(src.Type().Field(i)) && src.Field(i).Len() == 0 {
+				continue // proto3 bytes without presence: empty IS unset, a fresh copy holds nil
 			}
 			rawDeepCopy(dst.Field(i), src.Field(i))
 		}
